@@ -4,6 +4,10 @@
 import json, subprocess
 V = "/verif"
 checks = {
+ "C01": ("fault_enumeration", "§5 C01",
+   "Generated procedures are run by the real binary undisturbed and once per (top-level position x {failing statement, EXIT, EXIT n, TRIGGER ERROR, failing COMMIT}) and per (statement execution or commit step x {SIGINT, SIGTERM}) with the signal self-delivered exactly at that hook point. The expected state is observed, not modelled: the procedure dumps every table before each COMMIT and at its end; with C = commits the hook trace shows completed, the disk re-read by a fresh process must equal dump C, later-created files must not exist, the untouched file must be byte-identical, and every ROLLBACK must restore the last committed dump.",
+   "Termination is enumerated at statement and commit-step granularity (finer points: C10/C11). NULL and empty text coincide in the comparison. Trusts csvq's SELECT * for the dumps (checked by C03/C05).",
+   "runtime fault injection (self-delivered signals / injected failing statements at enumerated points) + observation-based state oracle"),
  "C06": ("exploration", "§5 C06",
    "Every operator result on every ordered pair of a ~165-value pool (all value classes of the quantifier) is produced by the real evaluator, through three operand carriers, and checked online against the algebraic laws of the statement, an independent coercion ladder written from the manual, and the documented expansions on sampled triples. Exhaustive over the pool for pairs; sampled for triples.",
    "Trusts the harness reference ladder (refval.go) as a faithful reading of the manual; spellings the manual does not pin down are checked against the laws only.",
@@ -16,6 +20,10 @@ checks = {
    "For each generated transaction the real binary is traced once, then killed (SIGKILL to itself from a hook) at EVERY hook point reached between the start of COMMIT and process exit, each on a fresh copy of the directory; after each death every pre-existing table must exist with complete old or complete new bytes and be usable after removing the control files. Thorough adds a walk over every file-system syscall of the commit with strace kill injection.",
    "Crash = process death at hook/syscall granularity; no torn write(2), no power-loss reordering (csvq never fsyncs; the property speaks of the process dying). Old/new bytes are taken from the initial files and from an undisturbed run of the same transaction.",
    "runtime fault injection at hook points + directory/bytes monitor"),
+ "C11": ("fault_enumeration", "§5 C11",
+   "A tracing run lists every hook point a procedure reaches (statement starts, loads, every lock-acquisition, commit and close step of lib/file, transaction commit/rollback steps); the real binary is re-run with SIGINT/SIGTERM/SIGQUIT self-delivered exactly at each point, plus error/EXIT endings, lock timeouts against orphan lock files and against a live competing holder, and signals while waiting in the lock retry loop. A directory monitor then requires: no .lock/.rlock/.temp file, no table outside the last completed COMMIT, and for read-only procedures no change in bytes or mtime.",
+   "Signal delivery is enumerated at hook-point granularity; SIGKILL is C10's. Quick samples up to 36 points per procedure (all statement starts get all three signals), thorough walks all.",
+   "runtime fault injection at enumerated hook points + directory snapshot monitor"),
  "C12": ("exploration", "§5 C12",
    "The real binary executes each generated program with --cpu 1 and then with --cpu 2,3,4,8,16 twice each under seeded scheduling jitter in the worker goroutines; stdout and all files must be byte-identical. The hook trace proves that sections really ran on several goroutines and counts the distinct worker-arrival orders produced.",
    "Determinism is only observed on the schedules produced (jitter widens them; distinct arrival signatures are reported). Programs are --quiet.",
